@@ -171,8 +171,25 @@ def check_projections(ctx):
         if sel is None:
             sel, lb = find("_ELAB_[np.argmax(_EM_, axis=1)]", full)
     # the names in the matches are locals of the function: resolve them where they stand
+    if stk is None:
+        # form B: the matrix is filled column by column:
+        #   for <col>, <arm> in enumerate(<arms seq>): E[<rows>, <col>] = self.arm_to_model[<arm>].predict(..)
+        for lp_ in [n for n in ast.walk(fv.node) if isinstance(n, ast.For)]:
+            it_ = lp_.iter
+            if isinstance(it_, ast.Call) and ast.unparse(it_.func) == "enumerate" and len(it_.args) == 1 and \
+                    isinstance(lp_.target, ast.Tuple) and len(lp_.target.elts) == 2 and \
+                    all(isinstance(x, ast.Name) for x in lp_.target.elts) and len(lp_.body) == 1 and \
+                    isinstance(lp_.body[0], ast.Assign) and isinstance(lp_.body[0].targets[0], ast.Subscript):
+                col, arm_ = lp_.target.elts[0].id, lp_.target.elts[1].id
+                tg_ = lp_.body[0].targets[0]
+                last = tg_.slice.elts[-1] if isinstance(tg_.slice, ast.Tuple) and tg_.slice.elts else None
+                val_ = lp_.body[0].value
+                if isinstance(last, ast.Name) and last.id == col and isinstance(val_, ast.Call) and \
+                        ast.unparse(val_.func) == "self.arm_to_model[%s].predict" % arm_:
+                    seq_ = env.at(lp_, it_.args[0])
+                    stk, sb = lp_, {"_ECOLS_": ast.unparse(seq_), "_EM_": ast.unparse(tg_.value)}
     ok = stk is not None and sel is not None
-    detail = "column-building comprehension or argmax label lookup not found"
+    detail = "column-building comprehension / column-filling loop or argmax label lookup not found"
     if ok:
         cols = ast.parse(sb["_ECOLS_"], mode="eval").body
         labs = ast.parse(lb["_ELAB_"], mode="eval").body
